@@ -80,14 +80,14 @@ def decide(prop, spec, slot_q, tier):
     slot = slot_q.get()
     try:
         r = kanirun.run_harness(engine, full, slot, timeout, mem_gb=spec.get("mem_gb", 24),
-                                extra_cbmc=spec.get("cbmc", ()))
+                                extra_cbmc=spec.get("cbmc", ()), unwindset=spec.get("unwindset", ()))
         r["name"] = name
         r["spec"] = spec
         r["replays"] = []
         if r["status"] == "FAIL":
             # second run: same query with counterexample extraction
             p = kanirun.run_harness(engine, full, slot, timeout * 2 + 120, mem_gb=spec.get("mem_gb", 24),
-                                    playback=True, extra_cbmc=spec.get("cbmc", ()))
+                                    playback=True, extra_cbmc=spec.get("cbmc", ()), unwindset=spec.get("unwindset", ()))
             r["playback_status"] = p["status"]
             seen = set()
             for cls, desc, tape in p.get("tapes", []):
@@ -142,6 +142,7 @@ def summarize(r):
         "symex_s": r["stats"].get("symex_s"),
         "wall_s": r["wall_s"],
         "stubs": r["stats"].get("stubs", []),
+        "per_loop_unwind": r.get("unwindset_rules", []),
         "cmd": r["cmd"],
     }
 
@@ -204,6 +205,7 @@ def main(argv):
                 if msgs:
                     reproduced.append({"desc": x["desc"], "tape": x["tape"], "message": msgs[0], "native": x["native"]})
         if not reproduced:
+            json.dump(r["replays"], open(os.path.join(OUT, prop, r["name"] + ".attempts.json"), "w"), indent=1)
             inconclusive.append("%s: solver counterexample did not reproduce natively (%s)" % (r["name"], r["detail"]))
             continue
         by_msg = {}
@@ -230,7 +232,7 @@ def main(argv):
 
     samples = [summarize(r) for r in results]
     evaluations = sum(s["queries"] for s in samples)
-    distinct = len(set(d for s in samples if s["status"] == "PASS" for d in s["obligation_assertions"] + s["covers_satisfied"]))
+    distinct = len(set(d for s in samples if s["status"] in ("PASS", "FAIL") for d in s["obligation_assertions"] + s["covers_satisfied"]))
     ev = {
         "property_id": prop, "tier": a.tier, "seed": seed, "level": P["level"],
         "coverage": {
@@ -238,7 +240,7 @@ def main(argv):
             "distinct_nontrivial": distinct,
             "rule": "evaluations = solver-decided checks (CBMC properties: obligation assertions, Rust panic/overflow/index "
                     "checks, reachability witnesses) over all harnesses of this run; distinct_nontrivial = distinct obligation "
-                    "assertions and satisfied reachability witnesses (by text) in harnesses whose verdict is PASS - auto-generated "
+                    "assertions and satisfied reachability witnesses (by text) in harnesses that reached a verdict - auto-generated "
                     "checks are not counted.",
             "samples": samples,
             "exhaustive": False,
